@@ -350,6 +350,13 @@ impl<'a> Ctx<'a> {
                         if imp != model { self.diverge(&stream, idx, &line, "rvole:pipeline-model", "Lean pipelineSeeds (Endemic -> Pprf) and the real EndemicOT -> build_pprf/eval_pprf pipeline disagree", &imp, &model); }
                     }
                     sd
+                } else if key.prov.starts_with("syn:") {
+                    // synthetic seeds with EVERY punctured index set to one value ("syn:0" = all zero: what the pipeline yields when the
+                    // base-OT choice bits are all ones; "syn:15" = all fifteen)
+                    let d: u8 = key.prov[4..].parse().unwrap_or(0);
+                    let mut sd = synthetic_seeds(key.seed);
+                    for i in 0..sd.r.random_choices.len() { sd.r.otp_dec_keys[i] = sd.s.otp_enc_keys[i]; sd.r.random_choices[i] = d; sd.r.otp_dec_keys[i][d as usize] = [0u8; 32]; }
+                    sd
                 } else { synthetic_seeds(key.seed) };
                 // ---- receiver, round one
                 let got = ext_recv_new(&key.sid, &seeds.s, &tape_r);
@@ -867,6 +874,14 @@ fn run_c01(o: &Opts, cx: &mut Ctx) {
             scenario(cx, &format!("{} honest", key_of(v, prov, sid, &a, seed, 0).line()));
         }
     }
+    // ---- seed sets whose punctured indices are all equal (all 0 / all 15): honest exchanges must go through
+    for d in [0u8, 15] {
+        let a = [special_scalar(&mut rng, 3), special_scalar(&mut rng, 1)];
+        let key = key_of(Variant::Ext, if d == 0 { "syn:0" } else { "syn:15" }, gen_sid(&mut rng, 50 + d as usize), &a, rng.next_u64() >> 1, 0);
+        cx.cache.clear();
+        cx.rep.hist("seed-set:all-punctured-indices-equal");
+        scenario(cx, &format!("{} honest", key.line()));
+    }
     // ---- dense beta (all ones) under SEVERAL session ids: b = <g, beta> then sums all 512 gadget elements, and the gadget vector
     //      depends on the session id — sums near the top of any accumulator's range show for some ids only
     for k in 0..(if thorough { 8 } else { 4 }) {
@@ -999,6 +1014,26 @@ fn run_c02(o: &Opts, cx: &mut Ctx) {
             let model = cx.ask(&format!("rvole send {} {} {} {},{} {} {}", hex::encode(key.sid), rc_hex(sd), dec_hex(sd), key.a[0], key.a[1], hex::encode(&r1), hex::encode(&base.tape_s)));
             if imp != model { cx.diverge("round-one-error", idx, &line, "rvole:send-model", "Lean senderProcess and RVOLESender::process disagree on an altered round-one message", &imp, &model); }
             if !matches!(got, Some(Err(()))) { cx.pred("round-one-error", idx, &line, "rvole:bad-round1-accepted", format!("RVOLESender::process accepts a round-one message with bit {p} flipped"), &clip(&imp), "Err"); }
+        }
+        // the sender's session id is a byte string of ANY length: a round-one message made under a 32-byte id must be banned when
+        // the sender runs under a related id of another length (id + one byte, id without its trailing zero byte)
+        {
+            let mut sid = gen_sid(&mut rng, 4); sid[31] = 0;
+            let key = key_of(Variant::Ext, "syn", sid, &[rand_scalar(&mut rng), rand_scalar(&mut rng)], rng.next_u64() >> 1, 0);
+            cx.cache.clear();
+            if let Some(base) = cx.base(&key) {
+                let sd = base.seeds.as_ref().unwrap();
+                for (name, rel) in [("id+01", [&sid[..], &[1u8][..]].concat()), ("id+00", [&sid[..], &[0u8][..]].concat()), ("id-without-trailing-zero", sid[..31].to_vec()), ("id-first-16", sid[..16].to_vec())] {
+                    let line = format!("{} honest", key.line());
+                    let idx = cx.rep.case("round-one-error", Some(&format!("{} r1-under-related-sid {name}", key.line())));
+                    cx.rep.hist(&format!("round-one-error:related-session-id:{name}"));
+                    let got = ext_send(&rel, &sd.r, &base.a, &base.r1, &base.tape_s);
+                    let imp = match &got { None => "panic".to_string(), Some(Err(())) => "ban".into(), Some(Ok((c, m, u))) => format!("ok:{}:{}:{}", sc2(c), hex::encode(m), u) };
+                    let model = cx.ask(&format!("rvole send {} {} {} {},{} {} {}", hex::encode(&rel), rc_hex(sd), dec_hex(sd), key.a[0], key.a[1], hex::encode(&base.r1), hex::encode(&base.tape_s)));
+                    if imp != model { cx.diverge("round-one-error", idx, &line, "rvole:send-model", "Lean senderProcess and RVOLESender::process disagree on a round-one message replayed under a related session id", &clip(&imp), &clip(&model)); }
+                    if !matches!(got, Some(Err(()))) { cx.pred("round-one-error", idx, &line, "rvole:replayed-round1-accepted", format!("RVOLESender::process under the session id `{name}` accepts a round-one message made for the 32-byte id"), &clip(&imp), "Err"); }
+                }
+            }
         }
         for half in (if thorough { vec![0usize, 1] } else { vec![1usize] }) {
             let key = key_of(Variant::Ot, "na", gen_sid(&mut rng, 5), &[rand_scalar(&mut rng), Scalar::ONE], rng.next_u64() >> 1, 0);
